@@ -192,6 +192,9 @@ def main(tier, seed):
             # files of other types must neither change nor appear / disappear (only the inserted types' own files may be new)
             compare("unrelated-type insertion", snap, only=lambda f: not agg(f) and "Unrelated" not in f and "vfdup" not in f.lower(), witness_src=s)
             out["local"] += out["files"] - n0
+        else:
+            # nothing refers to the inserted types: whether the module is accepted cannot depend on them
+            out["viol"].append(("unrelated-type insertion changes acceptance: %s" % kind, "-", e[-300:], s))
         # (4) code outside bridge modules (incl. a same-named type in a non-bridge module) has no influence
         p4 = copy.deepcopy(prog)
         dup = [t.name for t in prog.types()][0]
